@@ -11,6 +11,21 @@ COMMON_ASSUME = [
 EPHEM = ["angle", "jd", "astro", "top"]
 
 PROPS = {
+    "C07": {
+        "level": "proof",
+        "units": ["extlat", "adj", "imsaak", "h2t", "ptdt", "raw"],
+        "rule": "falsifier: 9 methods x 15 policies x 4 roundings with random numeric fields over C07's ranges under catch_unwind and a 20 s watchdog; non-trivial = distinct (policy, rounding, interval-method?, rounded latitude)",
+        "trusted": ["HashMaps with the key sets Params::new creates are modelled as records",
+                    "float-only escapes (non-finite hours) are outside the theorems; the falsifier's watchdog covers them"],
+        "assumptions": COMMON_ASSUME,
+    },
+    "C08": {
+        "level": "proof",
+        "units": ["extlat", "adj"],
+        "rule": "falsifier: policy P vs ExtremeLatitudeMethod::None on the same inputs, |lat|<=70, 8 methods x 14 policies, half of the cases where twilight is missing; non-trivial = distinct (policy, twilight missing?, date class)",
+        "trusted": ["'conventional' = result under policy None (which still runs the interval pass)"],
+        "assumptions": COMMON_ASSUME,
+    },
     "C14": {
         "level": "proof",
         "units": ["daterange", "civil"],
@@ -28,6 +43,16 @@ PROPS = {
 }
 
 GEN_ITEMS = {
+    "intFlagRead": ["C07", "C08", "C10", "C12"],
+    "isAlways": ["C07", "C08", "C09", "C10", "C12"],
+    "canAdj": ["C07", "C08", "C09", "C10", "C12"],
+    "hasInv": ["C07", "C08", "C09", "C10", "C12"],
+    "dispatch": ["C07", "C08", "C09", "C10", "C12"],
+    "intExcluded": ["C07", "C08", "C10", "C12"],
+    "Policy": ["C07", "C08", "C09", "C10", "C12", "C05", "C06"],
+    "goodDayBound": ["C07", "C09"],
+    "roundedPrayers": ["C07", "C11"],
+    "methodTable": ["C03", "C05", "C12", "C19"],
     "numDays": ["C14", "C15"],
     "partition": ["C14", "C15"],
     "hijriYear": ["C17"],
